@@ -14,7 +14,10 @@ scratch = "/tmp/verif-mkmutants"
 env = dict(os.environ, GOFLAGS="-mod=mod", GOPROXY="off", GOSUMDB="off")
 want = set(sys.argv[1:])
 bad = 0
-for pid, muts in rec.MUTANTS.items():
+allsets = dict(rec.MUTANTS)
+if hasattr(rec, 'BENIGN'):
+    allsets['benign'] = {k: dict(v, expect=[]) for k, v in rec.BENIGN.items()}
+for pid, muts in allsets.items():
     if want and pid not in want: continue
     for name, m in muts.items():
         shutil.rmtree(scratch, ignore_errors=True)
@@ -22,9 +25,12 @@ for pid, muts in rec.MUTANTS.items():
         subprocess.check_call(["rsync", "-a", "--exclude", ".git", repo + "/", scratch + "/a/"])
         subprocess.check_call(["rsync", "-a", scratch + "/a/", scratch + "/b/"])
         ok = True
-        for (path, old, new) in m["edits"]:
+        for e in m["edits"]:
+            path, old, new = e[0], e[1], e[2]
             p = os.path.join(scratch, "b", path)
             s = open(p).read()
+            if len(e) > 3 and e[3] == 'all' and s.count(old) >= 1:
+                open(p, "w").write(s.replace(old, new)); continue
             if s.count(old) != 1:
                 print(f"RECIPE-STALE {pid}/{name}: {path}: pattern occurs {s.count(old)} times"); ok = False; break
             open(p, "w").write(s.replace(old, new))
